@@ -368,6 +368,12 @@ def _classify_crash(err, rc):
     return 'CRASH:rc=%d' % rc
 
 
+def _limit_model_memory():
+    import resource
+    lim = 8 << 30
+    resource.setrlimit(resource.RLIMIT_AS, (lim, lim))
+
+
 def run_binary(binary, cases, workdir, tag, timeout_per_proc=600, env=None):
     """cases: list of (id, payload). Returns dict id -> result (crashes become CRASH...)."""
     os.makedirs(workdir, exist_ok=True)
@@ -381,8 +387,11 @@ def run_binary(binary, cases, workdir, tag, timeout_per_proc=600, env=None):
             for cid, payload in cases[start:]:
                 f.write('%s %s\n' % (cid, payload))
         try:
+            # the extracted model driver gets an address-space cap (a runaway model must not take the
+            # box down); the ASan harness cannot have one (shadow memory)
+            pre = _limit_model_memory if os.path.basename(binary) == 'model_driver' else None
             p = subprocess.run([binary, inp], stdout=subprocess.PIPE, stderr=subprocess.PIPE,
-                               timeout=timeout_per_proc, env=env)
+                               timeout=timeout_per_proc, env=env, preexec_fn=pre)
             out, err, rc = p.stdout, p.stderr, p.returncode
         except subprocess.TimeoutExpired as e:
             out, err, rc = e.stdout or b'', e.stderr or b'', -14
